@@ -570,7 +570,7 @@ def _concat_sources(I, it):
     if isinstance(o, HList) and o.segs and all(x[0] == "s" for x in o.segs) and not _CNF_mutated(it):
         out = []
         for x in o.segs:
-            out += [("s", x[1])]
+            out += _concat_sources(I, x[1])      # (a copy of a copy ... of a sequence is that sequence's elements)
         return out
     return [("s", it)]
 
